@@ -546,6 +546,10 @@ def shape_catalogue():
         prog(f"switch_default_grouped_{tname}", [("switch", sw, [(case(1), []), (("default",), []), (case(2), [_u(3), ("ctrl", "break")]), (case(3), [_u(4)])])] + tail)
         prog(f"switch_onlybreak_{tname}", [("switch", sw, [(case(1), [("ctrl", "break")]), (case(2), [_u(2)]), (("default",), [("ctrl", "break")])])] + tail)
         prog(f"switch_lonejump_{tname}", [("label", "s"), _u(9), ("switch", sw, [(case(1), [_u(1)]), (case(2), [("jump", "s")]), (case(3), [_u(2)]), (("default",), [("jump", "e")])]), _u(3)] + tail + [("label", "e")])
+        prog(f"switch_shared_block_{tname}", [_u(1), ("switch", sw, [(case(1), [("jump", "sh")]), (case(2), [_u(2), ("ctrl", "break")]), (case(3), [("jump", "sh")]),
+                                                                      (case(4), [_u(3), ("ctrl", "break")]), (case(5), [("label", "sh"), _u(4), ("ctrl", "break")])]), _u(5)] + tail)
+        prog(f"switch_shared_block_default_{tname}", [("switch", sw, [(case(1), [("jump", "sh")]), (case(2), [_u(2), ("ctrl", "break")]),
+                                                                       (("default",), [("label", "sh"), _u(4)])]), _u(5)] + tail)
         prog(f"switch_nocases_{tname}", [_u(1), ("switch", sw, [])] + tail)
         prog(f"switch_onlydefault_{tname}", [("switch", sw, [(("default",), [_u(1)])])] + tail)
         prog(f"switch_scn_{tname}", [("switch", ("SwitchScenario", (("int", 50),)), [(("case", ("CaseValue", (("int", 3), ("int", 1)))), [_u(1), ("ctrl", "break")]), (("case", ("CaseVariable", (("int", 4), ("const", "$B")))), [_u(2)])])] + tail)
